@@ -226,3 +226,29 @@ Proof. revert l; induction n; intros [|x t] H; simpl; auto. inversion H; subst. 
 
 Lemma Forall_skipn' {A} (P : A -> Prop) n l : Forall P l -> Forall P (skipn n l).
 Proof. revert l; induction n; intros [|x t] H; simpl; auto. inversion H; subst. auto. Qed.
+
+(* ================================================================================================ the reader's size products *)
+(* The reader computes valence * count (read_topo_chunk) and count * pos_size (read_vertices_chunk) in the integer types
+   recorded in the REGENERATED leaves Gen/OvmbFormat.v: topo_product_bits, vert_product_bits.  With the current values (64)
+   the reduction is the identity on everything a file can declare - a byte times 32 bits, 32 bits times at most 8 * 255.
+   These two lemmas hold because of the VALUE of the leaves: with 32 (the library before "fix: OVMB reader computed chunk
+   sizes in 32 bits") they are false and everything that rests on them - the round trip - stops compiling. *)
+Lemma topo_product_exact valence count : 0 <= valence < 256 -> 0 <= count < 4294967296 ->
+  (valence * count) mod 2 ^ topo_product_bits = valence * count.
+Proof.
+  intros Hv Hc. unfold topo_product_bits. apply Z.mod_small.
+  change (2 ^ 64) with 18446744073709551616. nia.
+Qed.
+
+(* the same for any product below 2^64 (the model lets the dimension be any integer; a real file has a byte there) *)
+Lemma vert_product_small x : 0 <= x < 18446744073709551616 -> x mod 2 ^ vert_product_bits = x.
+Proof.
+  intros Hx. unfold vert_product_bits. apply Z.mod_small. change (2 ^ 64) with 18446744073709551616. exact Hx.
+Qed.
+
+Lemma vert_product_exact count pos_size : 0 <= count < 4294967296 -> 0 <= pos_size <= 2040 ->
+  (count * pos_size) mod 2 ^ vert_product_bits = count * pos_size.
+Proof.
+  intros Hc Hp. unfold vert_product_bits. apply Z.mod_small.
+  change (2 ^ 64) with 18446744073709551616. nia.
+Qed.
